@@ -23,6 +23,8 @@ def gen(rng, tier):
             return G.gen_cfg(rng, profile="cnf_names", max_terms=3)
         return G.gen_cfg(rng, profile="suffix", reserved=True, max_prods=4,
                          reserved_pool=["C#CNF#1", "C#CNF#2", "C#CNF#3", "C#CNF#2"])
+    if tier == "thorough" and rng.chance(0.25):
+        return G.gen_cfg(rng, max_vars=5, max_prods=10, max_body=5, reserved=rng.chance(0.1))
     return G.gen_cfg(rng, reserved=rng.chance(0.1))
 
 
